@@ -424,6 +424,13 @@ def removeTask (p : Pool) (t : Nat) : Pool × Outcome :=
       | (w', .ok) => ({ (p.setWorker i w') with placed := p.placed.erase t }, .ok)
       | (w', e) => (p.setWorker i w', e)
 
+/-- `WorkerPool.get_allocated_resources(task)` on worker `wi`: the worker-level read (which may
+insert an empty ledger entry) and its result. -/
+def onWorker' (p : Pool) (wi : Nat) (t : Nat) : Pool × Option (Except PyErr (List (Res × Nat))) :=
+  match p.workers[wi]? with
+  | none => (p, none)
+  | some w => let (w', r) := w.getAllocated t; (p.setWorker wi w', some r)
+
 def canAccommodate (p : Pool) (s : Strategy) : Bool := p.workers.any (·.canAccommodate s)
 def isFull (p : Pool) : Bool := p.workers.all (·.isFull)
 
